@@ -173,15 +173,33 @@ Lemma wf_file s i : wf s = true -> i < length s -> file_wf s i = true.
 Proof.
   intros H Hi. unfold wf in H. rewrite forallb_forall in H.
   assert (Hin : In i (seq 0 (length s))) by (apply in_seq; lia).
-  specialize (H i Hin). apply andb_true_iff in H. destruct H as [H _]. exact H.
+  specialize (H i Hin). apply andb_true_iff in H. destruct H as [H _]. apply andb_true_iff in H. destruct H as [H _]. exact H.
+Qed.
+
+Lemma wf_opts s i : wf s = true -> i < length s -> opts_wf s i = true.
+Proof.
+  intros H Hi. unfold wf in H. rewrite forallb_forall in H.
+  assert (Hin : In i (seq 0 (length s))) by (apply in_seq; lia).
+  specialize (H i Hin). apply andb_true_iff in H. destruct H as [_ H]. exact H.
 Qed.
 
 Lemma wf_fields s i : wf s = true -> i < length s -> fields_wf s i = true.
 Proof.
   intros H Hi. unfold wf in H. rewrite forallb_forall in H.
   assert (Hin : In i (seq 0 (length s))) by (apply in_seq; lia).
-  specialize (H i Hin). apply andb_true_iff in H. destruct H as [_ H]. exact H.
+  specialize (H i Hin). apply andb_true_iff in H. destruct H as [H _]. apply andb_true_iff in H. destruct H as [_ H]. exact H.
 Qed.
+
+(* the translated validator of c.struct_packing_alignment admits only 0 and powers of two, for
+   EVERY integer: the alignment gcc is given in `aligned(n)` is always acceptable *)
+Lemma align_valid_pow2 v : align_valid v = true -> align_ok v = true.
+Proof.
+  unfold align_valid. intros H.
+  repeat (apply orb_true_iff in H; destruct H as [H | H]); apply Z.eqb_eq in H; subst v; reflexivity.
+Qed.
+
+Lemma align_of_wf s i : wf s = true -> i < length s -> g_align s i = true.
+Proof. intros H Hi. unfold g_align. apply align_valid_pow2. exact (wf_opts s i H Hi). Qed.
 
 Lemma strs_eqb_eq a : forall b, strs_eqb a b = true -> a = b.
 Proof.
